@@ -321,3 +321,54 @@ pub proof fn lemma_bytes_or(w: nat, a: nat, b: nat)
         lemma_nat_byte_or(a, b, i as nat);
     }
 }
+
+// ---- the byte string determines the number ------------------------------------------------------------
+
+/// the little-endian byte string of a (n bytes) assembles back to a: le_value is unit C16's
+/// "byte i has weight 256^i" (units/C16/bytes_spec.rs)
+pub proof fn lemma_le_bytes_value(a: nat, n: nat)
+    requires a < pow2(8 * n),
+    ensures crate::memory::backing::le_value(nat_le_bytes(a, n)) == a,
+    decreases n,
+{
+    let b = nat_le_bytes(a, n);
+    if n == 0 {
+        lemma2_to64();
+        assert(8 * 0 == 0);
+    } else {
+        let m = (n - 1) as nat;
+        let p = pow2(8 * m);
+        lemma_p8(m);
+        assert(pow2(8 * n) == p * 256);
+        let lo = a % p;
+        lemma_mod_bound(a as int, p as int);
+        lemma_le_bytes_value(lo, m);
+        assert(b.drop_last() =~= nat_le_bytes(lo, m)) by {
+            assert forall|i: int| 0 <= i < m implies b.drop_last()[i] == nat_le_bytes(lo, m)[i] by {
+                lemma_nat_byte_trun(a, m, i as nat);
+            }
+        }
+        // the top byte is a / p
+        assert(b.last() == nat_byte(a, m));
+        reveal(nat_byte);
+        lemma_fundamental_div_mod(a as int, p as int);
+        assert(a / p < 256) by {
+            lemma_div_by_multiple_is_strongly_ordered(a as int, (p * 256) as int, 256, p as int);
+            lemma_div_multiples_vanish(256, p as int);
+            assert(p * 256 == 256 * p) by (nonlinear_arith);
+        }
+        lemma_small_mod(a / p, 256);
+        assert(a == p * (a / p) + a % p);
+        assert((b.last() as nat) * p == p * (a / p)) by (nonlinear_arith) requires b.last() as nat == a / p;
+        assert(pow2((8 * (b.len() - 1)) as nat) == p);
+    }
+}
+
+/// two numbers below 2^(8n) with the same n-byte string are the same number
+pub proof fn lemma_le_bytes_inj(a: nat, b: nat, n: nat)
+    requires a < pow2(8 * n), b < pow2(8 * n), nat_le_bytes(a, n) == nat_le_bytes(b, n),
+    ensures a == b,
+{
+    lemma_le_bytes_value(a, n);
+    lemma_le_bytes_value(b, n);
+}
